@@ -27,6 +27,15 @@ TRUSTED = ['hand-written model coq/Model/Hdf5.v + coq/Model/Sparse.v tied to bio
            '(raw h5py tree of every written file == model tree; every loaded table == model reader)',
            'h5py / HDF5 / gzip filter, numpy fixed-width unicode arrays, datetime.isoformat/fromisoformat (validated end to end by the run)',
            'extraction (ExtrOcamlBasic only) + ocaml/driver_tail.ml, cross-checked against vm_compute on a sample']
+from . import regen_h5r as _regen_h5r
+# py2v_h5r: regenerate coq/Gen/Hdf5ReadGen.v (Table.from_hdf5, the reader) from the source first
+_regenerate_reader = _regen_h5r.hook(TRUSTED, ['h5read'], 'coq/Model/Hdf5.v (from_hdf5)', 'coq/Proofs/GenBridgeHdf5ReadProofs.v')
+
+
+def regenerate():
+    _regenerate_reader()
+
+
 ASSUMPTIONS = ['ids, category names and strings are Unicode scalar values without NUL (h5py refuses NUL, Python refuses lone surrogates)',
                'category names do not collide after the slash escape and read back through it (no literal @@SLASH@@-like text); '
                'the refuting name is a theorem (slash_escape_refuted)',
